@@ -64,8 +64,10 @@ def check_tok(case, rec):
     first = case["first"]
     classes = tok_state_classes(case["pat1"], p)
     keep = None
+    earlier = None
     if first == "list":
-        tk.tokenize(s1)
+        earlier = tk.tokenize(s1)
+        earlier_snapshot = [(list(fr), s, e) for fr, s, e in earlier]
     elif first == "cb":
         tk.tokenize(s1, callback=lambda *a: None)
     elif first == "gen_unstarted":
@@ -152,6 +154,12 @@ def check_tok(case, rec):
         raise Violation(
             f"reused tokenizer (first use: {first} on {case['pat1']!r}) gives {[x[0] for x in a]} on {case['pat2']!r}, "
             f"a fresh one {[x[0] for x in b]}", case)
+    if earlier is not None:
+        # and the other way round: what the first use returned does not depend on the later use
+        if [(list(fr), s, e) for fr, s, e in earlier] != earlier_snapshot:
+            raise Violation("the tokens returned by the first use changed when the tokenizer was used again", case)
+        if earlier is second and (earlier or second):
+            raise Violation("the second use returned the very list object the first use had returned", case)
     if first == "gen_unstarted":
         # the generator requested first is only consumed now, i.e. its run starts after a complete
         # run on another stream: it too must deliver what a fresh tokenizer delivers for stream 1
